@@ -44,17 +44,17 @@ PROPS = {
     "C19": enum("prng_enum", assumptions=["the state variable is reached through an optional probe (extern of_seed); without it states are set through of_rfc5170_srand"]),
     "C20": enum("blk_enum", assumptions=["blocking_struct.c is compiled by translation-unit inclusion with its unconditional printf compiled out"]),
     "C14": enum("kern_enum", assumptions=["tables are observed through optional probe translation units (harness/probe_gf.c, probe_rs8.c) that include the repository's own headers / source file"]),
-    "C01": hist(2500, 200, 12000, 400, small_enum=True, fuzz=150000, assumptions=[RFC_ASSUME, LIN_ASSUME, PROTO_ASSUME]),
-    "C02": hist(1500, 200, 10000, 400, small_enum=True, assumptions=[LIN_ASSUME, PROTO_ASSUME]),
-    "C03": hist(2000, 200, 10000, 400, small_enum=True, fuzz=150000, assumptions=[RFC_ASSUME, LIN_ASSUME, PROTO_ASSUME]),
-    "C04": hist(2000, 200, 10000, 400, small_enum=True, fuzz=150000, assumptions=[RFC_ASSUME, PROTO_ASSUME]),
-    "C06": hist(1500, 200, 12000, 400, small_enum=True, fuzz=150000, assumptions=[RFC_ASSUME, LIN_ASSUME]),
-    "C07": hist(2000, 200, 10000, 400, small_enum=True, fuzz=150000, memory=True, assumptions=[PROTO_ASSUME, "uninitialised reads are not observed (no MSan runtime for libstdc++ here)"]),
-    "C08": hist(2500, 200, 12000, 400, small_enum=True, fuzz=150000, memory=True, assumptions=[PROTO_ASSUME, "the application fetches the source table before release and frees decoded source symbols, callback buffers and NULL-slot repair symbols, as the API documents"]),
+    "C01": hist(2500, 200, 8000, 400, small_enum=True, fuzz=30000, assumptions=[RFC_ASSUME, LIN_ASSUME, PROTO_ASSUME]),
+    "C02": hist(1500, 200, 8000, 400, small_enum=True, assumptions=[LIN_ASSUME, PROTO_ASSUME]),
+    "C03": hist(2000, 200, 8000, 400, small_enum=True, fuzz=30000, assumptions=[RFC_ASSUME, LIN_ASSUME, PROTO_ASSUME]),
+    "C04": hist(2000, 200, 8000, 400, small_enum=True, fuzz=30000, assumptions=[RFC_ASSUME, PROTO_ASSUME]),
+    "C06": hist(1500, 200, 8000, 400, small_enum=True, fuzz=30000, assumptions=[RFC_ASSUME, LIN_ASSUME]),
+    "C07": hist(2000, 200, 8000, 400, small_enum=True, fuzz=30000, memory=True, assumptions=[PROTO_ASSUME, "uninitialised reads are not observed (no MSan runtime for libstdc++ here)"]),
+    "C08": hist(2500, 200, 8000, 400, small_enum=True, fuzz=30000, memory=True, assumptions=[PROTO_ASSUME, "the application fetches the source table before release and frees decoded source symbols, callback buffers and NULL-slot repair symbols, as the API documents"]),
     "C05": hist(300, 200, 700, 400, small_enum=True, assumptions=[RFC_ASSUME, "session-matrix and constructor observations use an optional white-box probe (harness/probe_ldpc.c); without it only the black-box encoder observation remains"]),
     "C09": hist(1000, 200, 12000, 300, assumptions=[PROTO_ASSUME, "behaviour under allocation failure is not judged: 2^32-1 byte symbols are only offered to sessions that allocate nothing of that size at configuration time", "MAX_K/MAX_N for LDPC taken as 50000 (OF_CTRL_GET_MAX_K/N answers are compared with it)"]),
     "C12": hist(500, 200, 4000, 300, small_enum=True, assumptions=[PROTO_ASSUME, "same thread only, as the property states; pointer values and library stdout are excluded from the traces"]),
     "C15": hist(600, 200, 1200, 400, small_enum=True, assumptions=[RFC_ASSUME, LIN_ASSUME]),
-    "C10": hist(2500, 200, 12000, 400, small_enum=True, fuzz=150000, assumptions=[RFC_ASSUME, PROTO_ASSUME]),
-    "C11": hist(2500, 200, 12000, 400, small_enum=True, fuzz=150000, assumptions=[PROTO_ASSUME, "callback order within one API call is unspecified and not compared"]),
+    "C10": hist(2500, 200, 8000, 400, small_enum=True, fuzz=30000, assumptions=[RFC_ASSUME, PROTO_ASSUME]),
+    "C11": hist(2500, 200, 8000, 400, small_enum=True, fuzz=30000, assumptions=[PROTO_ASSUME, "callback order within one API call is unspecified and not compared"]),
 }
